@@ -216,7 +216,9 @@ func genOps(t *rapid.T) []string {
 var lexSnippets = []string{"true", "false", "truex", "falsey", "xtrue", "and", "android", "or", "not", "nota", "a", "b1", "_x", "名", "é1", "0", "1", "12", "012", "1.5", "1.5.6", "1.", ".5", "1e5", "1e+5", "1e", "1.5e-3", "1e5e6",
 	"0x1F", "0x", "0xg", "0b101", "0b12", "0o17", "0o8", "0b0", "0x0f", `"s"`, `"a\"b"`, `"a\\"`, `"é"`, `"\u12"`, `"\q"`, `"unterminated`, "`raw`", "`un", "'2020-01-01'", "'t", "'a\"b'",
 	".", "?", ":", ",", "(", ")", "[", "]", "{", "}", "<", "<=", "==", "!=", "!", "&&", "||", "+", "-", "*", "/", "%", "^", ">=", ">", "=", "&", "|", "~", "@", "#", "$", "\\", "ˆ", ".^.", "?.", "..", "<=>", "=>", "ˆ.ˆ", "<ˆ>",
-	" ", "  ", "\t", "\n", "\r\n", " ", "　", "\v", ";", "\"", "'", "`", "💥"}
+	" ", "  ", "\t", "\n", "\r\n", " ", "　", "\v", ";", "\"", "'", "`", "💥",
+	// control characters that are NOT white space, and white space beyond ASCII
+	"\x00", "\x01", "\x08", "\x0e", "\x1b", "\x1f", "\x7f", "\f", "\u0085", "\u2028", "\u200b", "\ufeff"}
 
 // siblingOps: the same characters split into other spellings, one spelling more or fewer,
 // another order.
@@ -308,7 +310,7 @@ func genLexCase0(t *rapid.T) *LexCase {
 		}
 		c.Input = b.String()
 	default:
-		c.Input = rapid.StringOfN(rapid.RuneFrom([]rune("ab1 0.e?x<=->!&|\"'`\\\n\tué名(){}[],:+*/%^~@#$_5 ")), 0, 60, -1).Draw(t, "raw")
+		c.Input = rapid.StringOfN(rapid.RuneFrom([]rune("ab1 0.e?x<=->!&|\"'`\\\n\tué名(){}[],:+*/%^~@#$_5 \x00\x1f\x7f\f\u0085\u200b")), 0, 60, -1).Draw(t, "raw")
 	}
 	return c
 }
